@@ -73,6 +73,15 @@ def lemmas(ctx):
     from cssutils.tokenize2 import Tokenizer
     ctx.functions.add('cssutils/cssproductions.py::MACROS/PRODUCTIONS (as expanded and compiled by Tokenizer.__init__)')
 
+    # 0. negative look-aheads in the token table (the deterministic unicode / escape macros): removing them changes neither the
+    #    full-match language nor the match-at-start language of any production - decided completely by the automata back end;
+    #    this is what licenses the look-ahead free translation used by every lemma below and by the tokenizer contract
+    for n, _ in table:
+        ll = tr[n].lookahead_lemma
+        if ll and ll['status'] != 'none':
+            ctx.lemma('regex.C05.%s_negative_lookaheads_are_language_neutral' % n, 'discharged' if ll['status'] == 'unsat' else 'violated', 'automata', ll['seconds'],
+                      f"{ll['lookaheads']} look-aheads, {ll['states']} product states, automaton == CPython re on {ll['selftest']} words")
+
     def toks(text, full=False):
         return list(Tokenizer().tokenize(text, fullsheet=full))
 
